@@ -8,7 +8,7 @@ H = "vt.harness.c15"
 META = {
     "technique": "CrossHair (z3) symbolic execution of the real MetadorNode/MetadorGroup/MetadorDataset/WrappedAttributeManager/MetadorMeta guards with the three ACL flags as symbolic booleans: one-step induction over every navigation primitive and every mutating/reading member, recording raw objects",
     "explanation": "bounded symbolic execution of the real functions; exhaustive over all flag combinations per primitive; inductive over navigation chains of any length",
-    "bounds": {"quick": {"nav": "19 navigation primitives x all flag combinations (restrict: all 64 combinations of old/new flags)",
+    "bounds": {"quick": {"nav": "21 navigation primitives (incl. the upward members parent/file applied to every derived node, datasets too) x all flag combinations (restrict: all 64 combinations of old/new flags)",
                           "mutate": "22 mutating members (group, dataset, attribute manager incl. MutableMapping mixins, metadata) on read_only nodes",
                           "skel": "14 reading members on skel_only nodes", "restrict_monotone": "all 512 flag triples"}},
     "outside": ["bypassing through __wrapped__/private attributes (documented as soft restrictions)", "widgets' and packers' own use of restricted nodes",
